@@ -324,6 +324,7 @@ def run(repo, rep):
 
     rep.run_borrowed(c07, {"C07-f": "C08-k"}, repo)
     rep.run_borrowed(c09, {"C09-b": "C08-k", "C09-a": "C08-k"}, repo)
+    rule_round5(repo, rep)
 
     # ---------------------------------------------------------------- h: key components are computed from the quantities they name
     rep.clause("C08-h", "the block-depth component of the cache key is min(requested OFM block depth, OFM depth of the weights), with the OFM depth read from the same axis as the encoder's full_ofm_depth")
@@ -433,3 +434,62 @@ def run(repo, rep):
     rep.check(ok, "C08-l", "ethosu/vela/npu_serialisation.py:serialise_npu_subgraph_into_tensors", "weights and stand-alone scales are copied to flash under two independent tests",
               f"tests {sorted(tests)}; one copy sits in the else-branch of the other: an operator that reuses cached weights with its own scales has its scale range left as zeros")
     rep.floor("C08-l", 2)
+
+
+def rule_round5(repo, rep):
+    """(m) the encoder receives the micro-block depths of their own kind (rows of the accelerator table are read by field name, or
+    positionally in the field order of the named tuple); the reduced 16-bit scale form is selected exactly for int16 with an int64
+    bias (the reference's 64-bit accumulator case); regions of the scale stream [shared with C02-k]."""
+    from ..exprnorm import conjuncts
+    from ..tables import namedtuple_fields
+    from . import c02
+
+    rep.clause("C08-m", "micro-block depths handed to the encoder are the accelerator row's ifm_ublock / ofm_ublock by name (positional unpacking follows the named tuple's field order); "
+               "reduced_quantise_scale is selected iff the IFM is int16 and the bias int64; the stand-alone scale stream is addressed in its own region [rule shared with C02-k]")
+    rep.run_borrowed(c02, {"C02-k": "C08-m"}, repo, only_sites=("create_weights",))
+    af = repo.mod("architecture_features")
+    fields = namedtuple_fields(af.class_assigns("ArchitectureFeatures").get("ArchitectureConfig"))
+    if not fields:
+        raise AnalysisError("ArchitectureConfig fields not recognised")
+    n = 0
+    for m in repo.core_modules():
+        if m.name.startswith("tosa"):
+            continue
+        for q, fn in m.functions.items():
+            for st in ast.walk(fn):
+                if not (isinstance(st, ast.Assign) and len(st.targets) == 1):
+                    continue
+                v = st.value
+                txt = str(norm(v))
+                if "accelerator_configs[" not in txt and not txt.endswith(".config") and ".config[" not in txt:
+                    continue
+                t = st.targets[0]
+                if isinstance(t, ast.Tuple):
+                    # positional unpacking (possibly of a slice starting at 0)
+                    start = 0
+                    if isinstance(v, ast.Subscript) and isinstance(v.slice, ast.Slice):
+                        lo = v.slice.lower
+                        start = lo.value if isinstance(lo, ast.Constant) and isinstance(lo.value, int) else (0 if lo is None else None)
+                    if start is None:
+                        continue
+                    for i, e in enumerate(t.elts):
+                        if isinstance(e, ast.Name) and e.id in fields and start + i < len(fields):
+                            n += 1
+                            rep.check(fields[start + i] == e.id, "C08-m", f"ethosu/vela/{m.name}.py:{q}", f"`{e.id}` is unpacked from field `{e.id}` of the accelerator row",
+                                      f"position {start + i} of ArchitectureConfig is `{fields[start + i]}`: `{e.id}` receives the other micro-block (they differ on ethos-u55-32: depth 4 vs 8), "
+                                      "so the weight stream is reordered for the wrong micro-block depths")
+                elif isinstance(t, ast.Name) and isinstance(v, ast.Attribute) and v.attr in fields and t.id in fields:
+                    n += 1
+                    rep.check(v.attr == t.id, "C08-m", f"ethosu/vela/{m.name}.py:{q}", f"`{t.id}` is read from field `{t.id}` of the accelerator row", f"read from field `{v.attr}`")
+    if n < 2:
+        raise AnalysisError(f"accelerator row reads by field: only {n} found")
+    wc = repo.mod("weight_compressor")
+    ps = wc.func("_prepare_scale_and_bias")
+    sel = [i_ for i_ in ast.walk(ps) if isinstance(i_, ast.If) and any(isinstance(c_, ast.Call) and call_name(c_) == "reduced_quantise_scale" for b in i_.body for c_ in ast.walk(b))]
+    if len(sel) != 1:
+        raise AnalysisError("_prepare_scale_and_bias: selection of reduced_quantise_scale not found")
+    cj = sorted(str(norm(x)) for x in conjuncts(sel[0].test))
+    rep.check(cj == sorted(["ifm_dtype == DataType.int16", "bias_tens.dtype == DataType.int64"]), "C08-m", "ethosu/vela/weight_compressor.py:_prepare_scale_and_bias",
+              "the reduced (16-bit multiplier) form is used iff the IFM is int16 and the bias is int64", f"selected under {cj}: int16 feature maps with an int32 bias (full 32-bit multiplier in the reference) get "
+              "(multiplier >> 16, shift - 16) records, or int64-bias operators keep the full form")
+    rep.floor("C08-m", 4)
